@@ -41,7 +41,7 @@ REPO = os.environ.get("VERIF_REPO", "/repo")
 VERIF = os.path.dirname(os.path.dirname(os.path.abspath(__file__)))
 CACHE = os.environ.get("VERIF_CACHE", os.path.join(VERIF, ".cache"))
 STUBS = os.path.join(VERIF, "stubs")
-FRONTEND_VERSION = "cxx-13"
+FRONTEND_VERSION = "cxx-14"
 
 CLANG = "clang++"
 
@@ -280,7 +280,32 @@ def src_token(n):
                 _srcs[p] = fh.read()
         except OSError:
             _srcs[p] = b""
-    return _srcs[p][off:off + tl].decode("utf-8", "replace") or "?unresolved"
+    tok = _srcs[p][off:off + tl].decode("utf-8", "replace")
+    if re.match(r"^[A-Za-z_]\w*$", tok):
+        return tok
+    # member template call  x.name<args>(...): the range ends at '>' ; take the identifier before the template argument list
+    b = (n.get("range") or {}).get("begin") or {}
+    if "expansionLoc" in b:
+        b = b["expansionLoc"]
+    boff = b.get("offset")
+    if boff is not None and boff < off:
+        text = _srcs[p][boff:off + tl].decode("utf-8", "replace")
+        depth = 0
+        i = len(text) - 1
+        while i >= 0:
+            ch = text[i]
+            if ch == ">":
+                depth += 1
+            elif ch == "<":
+                depth -= 1
+                if depth == 0:
+                    break
+            i -= 1
+        head = text[:i] if i > 0 else text
+        m = re.search(r"([A-Za-z_]\w*)\s*$", head)
+        if m:
+            return m.group(1)
+    return tok or "?unresolved"
 
 
 _WIDTH = {"long": 64, "unsigned long": 64, "long long": 64, "unsigned long long": 64, "int": 32, "unsigned int": 32, "short": 16, "unsigned short": 16,
